@@ -3,8 +3,10 @@ package pauditd
 import (
 	"context"
 	"fmt"
+	"syscall"
 	"testing"
 	"testing/synctest"
+	"time"
 
 	"github.com/metal-toolbox/auditevent"
 	"github.com/prometheus/client_golang/prometheus"
@@ -244,8 +246,40 @@ func runC13(t *testing.T, run *mc.Run) int {
 			return ""
 		})
 	}
+	// --- the audit processor holding hundreds of unfinished events of a correlated session while the output has
+	// started to fail (with an error that also reads as EAGAIN / EINTR / a plain one): on its way out it flushes the
+	// reassembler; however the flush fares, the processor is back within the bound (5 s of virtual time)
+	for _, kind := range []error{errInjected, dressedErr{syscall.EAGAIN}, dressedErr{syscall.EINTR}} {
+		kind := kind
+		cell(fmt.Sprintf("audit-processor/300-unfinished-events-held-output-failing-with-%v", kind), true, func() string {
+			r := startRead(0)
+			r.offerLogin(mkLogin(bindPID, "1"))
+			r.offerLine(bindLines("7") + "\n")
+			r.offerLine(auditgen.Simple("USER_START", 1700000031, 4001, "7", "4242", "success").Recs[0].Line + "\n")
+			for i := 0; i < 300; i++ {
+				g := auditgen.Syscall(1700000040+int64(i), 5000+i, "7", "4242", "yes", []string{"ls"}, 1, false)
+				for _, rec := range g.Recs[:2] { // SYSCALL and EXECVE only: the group stays open
+					r.offerLine(rec.Line + "\n")
+				}
+			}
+			if r.returned {
+				return fmt.Sprintf("returned before cancellation: %v", r.ret)
+			}
+			old := writeErr
+			writeErr = kind
+			defer func() { writeErr = old }()
+			r.w.failAt = r.w.n + 1 // every write from now on fails
+			r.cancel()
+			synctest.Wait()
+			vsleep(5 * time.Second)
+			if !r.returned {
+				return "the audit processor is still running 5 s after its context was cancelled (300 unfinished events were held, the output fails)"
+			}
+			return ""
+		})
+	}
 	cov := mc.Coverage{Level: "fault_enumeration", Evaluations: n, Distinct: blocking, Exhaustive: true, Samples: samples,
-		Rule:  "cancellation injected in each blocking state of each worker that can run in a synctest bubble: AuditLogIngester.Process with downstream capacity {0,1,3} empty/full and the consumer stopped; ProcessSshdLogEntry blocked on the login hand-off; Auditd.Read idle / with an open session / holding events / with a waiting login / in the middle of an event write with 200 and 6 000 lines waiting in its line buffer (no more than 64 further lines may be taken once it has returned: the parser's select is a coin flip per line, not a drain); after return further input is offered and must be neither consumed nor emitted. 'never returns' = still durably blocked after cancel(); Wait(). distinct_nontrivial = cells in which the worker is blocked when cancellation arrives",
+		Rule:  "cancellation injected in each blocking state of each worker that can run in a synctest bubble: AuditLogIngester.Process with downstream capacity {0,1,3} empty/full and the consumer stopped; ProcessSshdLogEntry blocked on the login hand-off; Auditd.Read idle / with an open session / holding events / with a waiting login / in the middle of an event write with 200 and 6 000 lines waiting in its line buffer (no more than 64 further lines may be taken once it has returned: the parser's select is a coin flip per line, not a drain) / holding 300 unfinished events of a correlated session while the output fails with a plain, an EAGAIN-like or an EINTR-like error (back within 5 s of virtual time); after return further input is offered and must be neither consumed nor emitted. 'never returns' = still durably blocked after cancel(); Wait(). distinct_nontrivial = cells in which the worker is blocked when cancellation arrives",
 		Extra: map[string]any{"cells": n}}
 	cov.Assumptions = []string{"testing/synctest durable-blocking semantics"}
 	return run.Finish(cov)
